@@ -204,6 +204,7 @@ pub fn base_plan(family: &'static str, role: Role, ch: &mut Choices) -> Plan {
             deviation_at: 0,
             ack_codes: Vec::new(),
             pubcomp_any_order: false,
+            refuse_pubrec: false,
             long_acks: false,
             skip_connect: false,
         },
@@ -618,6 +619,8 @@ fn gen_outbound(kind: OutKind, ch: &mut Choices) -> Plan {
         plan.peer.ack_codes = vec![0x00, 0x10, 0x00, 0x80, 0x87];
     }
     plan.peer.pubcomp_any_order = kind == OutKind::C14 && ch.chance(1, 2);
+    // (MQTT 5) the peer may refuse an exactly-once publish with its PUBREC
+    plan.peer.refuse_pubrec = v5 && !plan.peer.ack_codes.is_empty() && matches!(kind, OutKind::C14 | OutKind::C06 | OutKind::C05) && ch.chance(1, 2);
     plan.peer.long_acks = v5 && ch.chance(1, 4);
     if kind == OutKind::C06 && ch.chance(1, 2) {
         plan.peer.deviation = *ch.pick(&[
